@@ -1,2 +1,3 @@
 import Proofs.C17
 import Proofs.C18
+import Proofs.C16
